@@ -271,6 +271,14 @@ def build(spec, env):
         return Case(cmds, check, 1, (fn, szb(wn), szb(un), mode, sg, alias), trivial=(a == 0 or m == 0))
     raise ValueError(kind)
 
+HOOKS = {1: 'mul_n', 2: 'sqr', 3: 'basecase', 4: 'basecase-chunked', 5: 'fft', 6: 'toom8h', 7: 'toom4', 8: 'toom53', 9: 'toom42', 10: 'toom3', 11: 'toom32', 12: 'mul_n+pieces'}
+def post(tier, agg, cov):
+    hits = agg.get('hits', {})
+    cov['regimes_observed'] = {HOOKS[k]: hits.get(k, 0) for k in HOOKS}
+    cov['fft_parameters_observed'] = sorted({(e[0], e[1], e[2]) for e in agg.get('evts', []) if e[0] in (20, 21)})
+    missing = [HOOKS[k] for k in HOOKS if not hits.get(k)]
+    if missing: return {'inconclusive': 'mpn_mul dispatch arms never reached (hook counters zero): %s' % missing}
+
 if __name__ == '__main__':
     import runner
     runner.main('c01')
